@@ -1,6 +1,8 @@
 /- yvdrv — line-protocol driver: one JSON case per stdin line, one JSON result per stdout line. -/
 import YV.Drv.C01
 import YV.Drv.XB
+import YV.Drv.C02
+import YV.Drv.C03
 open Lean YV.Drv
 
 def dispatch (j : Json) : List (String × Json) :=
@@ -8,6 +10,8 @@ def dispatch (j : Json) : List (String × Json) :=
   | "c01" => C01.handle j
   | "sf" => C01.handleSF j
   | "xbuild" => XB.handle j
+  | "c02" => C02.handle j
+  | "c03" => C03.handle j
   | k => [("m", Json.str ("unknown-kind:" ++ k)), ("s", Json.str "unknown-kind")]
 
 partial def loop (hin : IO.FS.Stream) (hout : IO.FS.Stream) : IO Unit := do
